@@ -47,6 +47,56 @@ pub fn regs_mentioned(block: &truth::ast::Block) -> BTreeSet<i32> {
 }
 
 /// Check one body under one (table, pool).  `c05` adds the register-set oracle failures.
+/// Does some float comparison in the body have an operand that evaluates to NaN under this valuation (operands
+/// evaluated from the initial register state)?  Used only to *classify* a behavioural difference as the known finding
+/// "a negated float comparison (unless / if-block / while) is compiled as the complementary operator, which differs
+/// when an operand is NaN".
+fn float_cmp_with_nan_operand(truth: &mut truth::Truth, stmts: &[truth::Sp<truth::ast::Stmt>], val: &Valuation) -> bool {
+    use truth::ast;
+    fn walk<'b>(stmts: &'b [truth::Sp<ast::Stmt>], out: &mut Vec<&'b truth::Sp<ast::Expr>>) {
+        for s in stmts {
+            match &s.kind {
+                ast::StmtKind::Assignment { value, .. } => out.push(value),
+                ast::StmtKind::Declaration { vars, .. } => for v in vars { if let Some(e) = &v.value.1 { out.push(e); } },
+                ast::StmtKind::Expr(e) => { if let ast::Expr::Call(c) = &e.value { for a in &c.args { out.push(a); } } },
+                ast::StmtKind::Block(b) => walk(&b.0, out),
+                ast::StmtKind::Loop { block, .. } => walk(&block.0, out),
+                ast::StmtKind::While { block, cond, .. } => { out.push(cond); walk(&block.0, out) },
+                ast::StmtKind::Times { block, count, .. } => { out.push(count); walk(&block.0, out) },
+                ast::StmtKind::CondJump { cond, .. } => out.push(cond),
+                ast::StmtKind::CondChain(chain) => {
+                    for cb in &chain.cond_blocks { out.push(&cb.cond); walk(&cb.block.0, out); }
+                    if let Some(b) = &chain.else_block { walk(&b.0, out); }
+                },
+                _ => {},
+            }
+        }
+    }
+    fn subexprs<'b>(e: &'b truth::Sp<ast::Expr>, out: &mut Vec<&'b truth::Sp<ast::Expr>>) {
+        out.push(e);
+        match &e.value {
+            ast::Expr::BinOp(a, _, b) => { subexprs(a, out); subexprs(b, out); },
+            ast::Expr::UnOp(_, a) => subexprs(a, out),
+            ast::Expr::Ternary { cond, left, right, .. } => { subexprs(cond, out); subexprs(left, out); subexprs(right, out); },
+            ast::Expr::DiffSwitch(cases) => for c in cases.iter().flatten() { subexprs(c, out); },
+            _ => {},
+        }
+    }
+    let mut tops = vec![]; walk(stmts, &mut tops);
+    let mut all = vec![]; for t in tops { subexprs(t, &mut all); }
+    let ctx = truth.ctx();
+    for e in all {
+        let ast::Expr::BinOp(a, op, b) = &e.value else { continue; };
+        if !matches!(op.value, ast::BinOpKind::Lt | ast::BinOpKind::Le | ast::BinOpKind::Gt | ast::BinOpKind::Ge | ast::BinOpKind::Eq | ast::BinOpKind::Ne) { continue; }
+        for side in [a, b] {
+            let mut vm = truth::vm::AstVm::new().with_max_iterations(100).with_difficulty(0);
+            for (&r, v) in val { vm.set_reg(truth::RegId(r), v.to_scalar()); }
+            if let Ok(truth::ScalarValue::Float(x)) = catch(|| vm.eval(&side.value, &ctx.resolutions)) { if x.is_nan() { return true; } }
+        }
+    }
+    false
+}
+
 pub fn check_case(table: &Table, mapfile: &str, case: &Case, pool: (usize, usize), vals: &[Valuation], which: &str) -> CaseResult {
     let mut res = CaseResult { outcome: String::new(), nontrivial: false, failures: vec![], executions: 0, traces: 0, discards: vec![] };
     let detail = |extra: serde_json::Value| json!({"family": "tl-body", "body": case.body, "table": table.cfg.name(), "pool": [pool.0, pool.1], "choices": case.choices, "info": extra});
@@ -78,14 +128,15 @@ pub fn check_case(table: &Table, mapfile: &str, case: &Case, pool: (usize, usize
                 runs.push((vi, d, src, rz));
             }
         }
-        ("compiled".into(), Some((instrs, raised.err(), runs, regs_after_folding)), String::new())
+        let nan_by_val: Vec<bool> = vals.iter().map(|v| float_cmp_with_nan_operand(truth, &block.0, v)).collect();
+        ("compiled".into(), Some((instrs, raised.err(), runs, regs_after_folding, nan_by_val)), String::new())
     }));
     let (outcome, data, diag) = match r {
         Ok(x) => x,
         Err(p) => { res.outcome = format!("compile-panic"); res.discards.push(p.signature()); return res; }
     };
     res.outcome = outcome.clone();
-    let Some((instrs, raise_err, runs, regs_after_folding)) = data else {
+    let Some((instrs, raise_err, runs, regs_after_folding, nan_by_val)) = data else {
         if outcome == "rejected:lower" {
             // classify
             let class = if diag.contains("too complex") || diag.contains("no more registers") || diag.contains("scratch") { "lower:no-registers" }
@@ -117,7 +168,10 @@ pub fn check_case(table: &Table, mapfile: &str, case: &Case, pool: (usize, usize
     // registers to compare: everything mentioned + everything not available as scratch
     let pool_regs: BTreeSet<i32> = POOL_INTS[..pool.0].iter().chain(POOL_FLOATS[..pool.1].iter()).copied().collect();
     let cmp_regs: Vec<i32> = REGS.iter().map(|r| r.id).filter(|r| case.model.regs.contains(r) || !pool_regs.contains(r)).collect();
-    let time_observable = table.cfg.jump_order != JumpOrder::O;
+    // a jump with an explicit time (`goto L @ t`, t != time of L) leaves the clock off the label clock; compiler-generated
+    // jumps (ternaries, blocks) then carry *label* times in their `t` argument while AstVm executes no jump there: the same
+    // AstVm artefact as in C07, so for such bodies calls and registers are compared, clocks are not
+    let time_observable = table.cfg.jump_order != JumpOrder::O && !case.body.contains('@');
     for (vi, d, src, rz) in runs {
         res.executions += 1;
         if let Some(s) = &src.stopped { if s.starts_with("vm-panic") { res.discards.push(format!("source-undefined:{s}")); continue; } }
@@ -135,7 +189,10 @@ pub fn check_case(table: &Table, mapfile: &str, case: &Case, pool: (usize, usize
                     // seen by the scratch allocator: a separate, narrowly identified finding
                     let folded_away = diff.strip_prefix("register ").and_then(|r| r.split(' ').next()).and_then(|r| r.parse::<i32>().ok())
                         .map(|r| case.model.regs.contains(&r) && !regs_after_folding.contains(&r)).unwrap_or(false);
-                    let sig = if folded_away { format!("{which}:scratch-register-mentioned-only-in-constant-folded-code") } else { format!("{which}:behaviour:{}", case.body) };
+                    // `unless (a < b)` / `if (a < b) {..}` / `while (a < b)` jump on the complementary operator (`a >= b`), which is
+                    // not the negation when an operand is NaN: a separate, narrowly identified finding
+                    let sig = if folded_away { format!("{which}:scratch-register-mentioned-only-in-constant-folded-code") }
+                        else if nan_by_val[vi] { format!("{which}:negated-float-comparison-with-nan-operand") } else { format!("{which}:behaviour:{}", case.body) };
                     res.failures.push(Failure { signature: sig, detail: detail(json!({"valuation": vi, "difficulty": d, "diff": diff, "oracle": "AstVm(source) vs M1(emitted)", "instrs": fmt_instrs(&instrs), "registers_mentioned_after_constant_folding": regs_after_folding})) });
                     break;
                 }
@@ -151,7 +208,7 @@ pub fn check_case(table: &Table, mapfile: &str, case: &Case, pool: (usize, usize
             if let Some(diff) = compare_traces_ex(&src, &rz, &cmp_regs, time_observable, time_observable) {
                 let folded_away = diff.strip_prefix("register ").and_then(|r| r.split(' ').next()).and_then(|r| r.parse::<i32>().ok())
                     .map(|r| case.model.regs.contains(&r) && !regs_after_folding.contains(&r)).unwrap_or(false);
-                res.failures.push(Failure { signature: if folded_away { format!("{which}:scratch-register-mentioned-only-in-constant-folded-code") } else { format!("{which}:behaviour-raised:{}", case.body) }, detail: detail(json!({"valuation": vi, "difficulty": d, "diff": diff, "oracle": "AstVm(source) vs AstVm(raise(emitted))", "instrs": fmt_instrs(&instrs)})) });
+                res.failures.push(Failure { signature: if folded_away { format!("{which}:scratch-register-mentioned-only-in-constant-folded-code") } else if nan_by_val[vi] { format!("{which}:negated-float-comparison-with-nan-operand") } else { format!("{which}:behaviour-raised:{}", case.body) }, detail: detail(json!({"valuation": vi, "difficulty": d, "diff": diff, "oracle": "AstVm(source) vs AstVm(raise(emitted))", "instrs": fmt_instrs(&instrs)})) });
                 break;
             }
         }
